@@ -12,20 +12,25 @@
    stopped; after a returned close no listener is open and nothing serves at the next quiescent point; every call returns.  *)
 EXTENDS Naturals, Sequences, FiniteSets, TLC, Json, IOUtils
 Traces == JsonDeserialize(IOEnv.TRACE_FILE)
-VARIABLES tid, l, owner, phase, refused, closeSeen, closeReturned, pending, bornClosed
+VARIABLES tid, l, owner, phase, refused, closeSeen, closeReturned, pending, bornClosed, stopped, finishing, gen, starget
 \* owner: actor whose serve_forever call is the active one (0: none); phase: "idle" | "setup" | "up"
 \* refused: serve calls issued while another one was active; bornClosed: serve calls issued after a close had returned
-vars == <<owner, phase, refused, closeSeen, closeReturned, pending, bornClosed>>
+\* stopped: the active serve call has been declared over by a shutdown() that returned (its own return may not be logged yet)
+\* finishing: serve calls superseded that way, whose return is still to be logged
+\* gen: number of serve calls that became the active one so far; starget[a]: value of gen when actor a called shutdown() (0: nothing was active)
+vars == <<owner, phase, refused, closeSeen, closeReturned, pending, bornClosed, stopped, finishing, gen, starget>>
 T == Traces[tid]
 Ev == T.events[l]
 TInit == /\ tid \in 1..Len(Traces) /\ l = 1 /\ owner = 0 /\ phase = "idle" /\ refused = {} /\ closeSeen = FALSE /\ closeReturned = FALSE
-         /\ pending = {} /\ bornClosed = {}
+         /\ pending = {} /\ bornClosed = {} /\ stopped = FALSE /\ finishing = {} /\ gen = 0 /\ starget = <<>>
 IsEvent(e) == l <= Len(T.events) /\ Ev.ev = e /\ l' = l + 1 /\ UNCHANGED tid
 Call(k) == <<k, Ev.a>>
+\* once a shutdown() has returned, serving has fully stopped: a new serve_forever() is not "concurrent" with the call that was shut down
 ServeCall == /\ IsEvent("serve_call") /\ pending' = pending \cup {Call("serve")}
-             /\ IF owner # 0
-                THEN refused' = refused \cup {Ev.a} /\ UNCHANGED <<owner, phase, bornClosed>>
-                ELSE /\ owner' = Ev.a /\ phase' = "setup" /\ UNCHANGED refused
+             /\ IF owner # 0 /\ ~stopped
+                THEN refused' = refused \cup {Ev.a} /\ UNCHANGED <<owner, phase, bornClosed, stopped, finishing, gen, starget>>
+                ELSE /\ owner' = Ev.a /\ phase' = "setup" /\ UNCHANGED <<refused, starget>> /\ stopped' = FALSE /\ gen' = gen + 1
+                     /\ finishing' = (IF owner # 0 THEN finishing \cup {owner} ELSE finishing)
                      /\ bornClosed' = (IF closeReturned THEN bornClosed \cup {Ev.a} ELSE bornClosed)
              /\ UNCHANGED <<closeSeen, closeReturned>>
 \* Two serve_forever calls that are in flight together race for the server's locks: the order of the "serve_call" events does not decide
@@ -34,40 +39,47 @@ Up == /\ IsEvent("up") /\ phase = "setup"
       /\ \/ owner = Ev.a /\ UNCHANGED <<owner, refused>>
          \/ owner # 0 /\ Ev.a \in refused /\ owner' = Ev.a /\ refused' = (refused \ {Ev.a}) \cup {owner}
       /\ phase' = "up"
-      /\ UNCHANGED <<closeSeen, closeReturned, pending, bornClosed>>
+      /\ UNCHANGED <<closeSeen, closeReturned, pending, bornClosed, stopped, finishing, gen, starget>>
 ServeRet == /\ IsEvent("serve_ret") /\ Call("serve") \in pending /\ pending' = pending \ {Call("serve")}
-            /\ IF Ev.a \in refused
-               THEN Ev.out = "already_running" /\ refused' = refused \ {Ev.a} /\ UNCHANGED <<owner, phase, bornClosed>>
+            /\ IF Ev.a \in finishing
+               THEN Ev.out # "already_running" /\ finishing' = finishing \ {Ev.a} /\ UNCHANGED <<owner, phase, refused, bornClosed, stopped>>
+               ELSE IF Ev.a \in refused
+               THEN Ev.out = "already_running" /\ refused' = refused \ {Ev.a} /\ UNCHANGED <<owner, phase, bornClosed, stopped, finishing>>
                ELSE IF owner = Ev.a /\ Ev.out = "already_running"
                THEN \* the presumed owner lost the race: one of the calls presumed refused is the active one
                     /\ phase = "setup" /\ refused # {}
                     /\ \E b \in refused : owner' = b /\ refused' = refused \ {b}
-                    /\ UNCHANGED <<phase, bornClosed>>
+                    /\ UNCHANGED <<phase, bornClosed, stopped, finishing>>
                ELSE /\ owner = Ev.a /\ Ev.out # "already_running"
                     /\ (Ev.out = "closed_error" => closeSeen)
                     /\ (Ev.a \in bornClosed => Ev.out = "closed_error")
-                    /\ owner' = 0 /\ phase' = "idle" /\ bornClosed' = bornClosed \ {Ev.a} /\ UNCHANGED refused
-            /\ UNCHANGED <<closeSeen, closeReturned>>
-ShutdownCall == IsEvent("shutdown_call") /\ pending' = pending \cup {Call("shutdown")} /\ UNCHANGED <<owner, phase, refused, closeSeen, closeReturned, bornClosed>>
+                    /\ owner' = 0 /\ phase' = "idle" /\ bornClosed' = bornClosed \ {Ev.a} /\ stopped' = FALSE /\ UNCHANGED <<refused, finishing>>
+            /\ UNCHANGED <<closeSeen, closeReturned, gen, starget>>
+Put(f, k, v) == [x \in DOMAIN f \cup {k} |-> IF x = k THEN v ELSE f[x]]
+ShutdownCall == /\ IsEvent("shutdown_call") /\ pending' = pending \cup {Call("shutdown")}
+                /\ starget' = Put(starget, Ev.a, IF owner # 0 THEN gen ELSE 0)
+                /\ UNCHANGED <<owner, phase, refused, closeSeen, closeReturned, bornClosed, stopped, finishing, gen>>
 \* shutdown returns only after serving has fully stopped
 ShutdownRet == /\ IsEvent("shutdown_ret") /\ Call("shutdown") \in pending /\ pending' = pending \ {Call("shutdown")}
                /\ Ev.serving = FALSE
-               /\ UNCHANGED <<owner, phase, refused, closeSeen, closeReturned, bornClosed>>
+               \* the serve call that was active when this shutdown() was issued is over, even if its own return is not logged yet
+               /\ stopped' = (owner # 0 /\ (stopped \/ (Ev.a \in DOMAIN starget /\ starget[Ev.a] = gen)))
+               /\ UNCHANGED <<owner, phase, refused, closeSeen, closeReturned, bornClosed, finishing, gen, starget>>
 CloseCall == /\ IsEvent("close_call") /\ pending' = pending \cup {Call("close")} /\ closeSeen' = TRUE
-             /\ UNCHANGED <<owner, phase, refused, closeReturned, bornClosed>>
+             /\ UNCHANGED <<owner, phase, refused, closeReturned, bornClosed, stopped, finishing, gen, starget>>
 CloseRet == /\ IsEvent("close_ret") /\ Call("close") \in pending /\ pending' = pending \ {Call("close")}
             /\ \/ /\ Ev.out = "returned" /\ Ev.listening = FALSE /\ closeReturned' = TRUE
                \/ /\ Ev.out = "busy" /\ phase = "setup" /\ UNCHANGED closeReturned      \* refused loudly during the set-up of serve_forever
-            /\ UNCHANGED <<owner, phase, refused, closeSeen, bornClosed>>
+            /\ UNCHANGED <<owner, phase, refused, closeSeen, bornClosed, stopped, finishing, gen, starget>>
 \* quiescent observation: consistent with the history
 Probe == /\ IsEvent("probe") /\ pending \subseteq {c \in pending : c[1] = "serve"}
          /\ (Ev.serving => owner # 0 /\ phase = "up" /\ ~closeReturned)
          /\ (closeReturned => ~Ev.listening /\ ~Ev.serving)
          /\ UNCHANGED vars
 \* NetworkServerThread.start(): returns once the server is up or its serve_forever() has ended - it has to return
-TStartCall == IsEvent("tstart_call") /\ pending' = pending \cup {Call("tstart")} /\ UNCHANGED <<owner, phase, refused, closeSeen, closeReturned, bornClosed>>
-TStartRet == IsEvent("tstart_ret") /\ Call("tstart") \in pending /\ pending' = pending \ {Call("tstart")} /\ UNCHANGED <<owner, phase, refused, closeSeen, closeReturned, bornClosed>>
-End == IsEvent("end") /\ pending = {} /\ owner = 0 /\ UNCHANGED vars
+TStartCall == IsEvent("tstart_call") /\ pending' = pending \cup {Call("tstart")} /\ UNCHANGED <<owner, phase, refused, closeSeen, closeReturned, bornClosed, stopped, finishing, gen, starget>>
+TStartRet == IsEvent("tstart_ret") /\ Call("tstart") \in pending /\ pending' = pending \ {Call("tstart")} /\ UNCHANGED <<owner, phase, refused, closeSeen, closeReturned, bornClosed, stopped, finishing, gen, starget>>
+End == IsEvent("end") /\ pending = {} /\ owner = 0 /\ finishing = {} /\ UNCHANGED vars
 TNext == TStartCall \/ TStartRet \/ ServeCall \/ Up \/ ServeRet \/ ShutdownCall \/ ShutdownRet \/ CloseCall \/ CloseRet \/ Probe \/ End
 ASSUME \A x \in 1..Len(Traces) : TLCSet(x, 0)
 Constr == TLCSet(tid, IF TLCGet(tid) > l THEN TLCGet(tid) ELSE l)
